@@ -292,11 +292,12 @@ impl DcpsDomainParticipant {
         Ok(subscriber.default_data_reader_qos.clone())
     }
 
-    #[tracing::instrument(skip(self))]
+    #[tracing::instrument(skip(self, runtime))]
     pub fn set_subscriber_qos(
         &mut self,
         subscriber_handle: &InstanceHandle,
         qos: QosKind<SubscriberQos>,
+        runtime: &impl DdsRuntime,
     ) -> DdsResult<()> {
         let qos = match qos {
             QosKind::Default => self.domain_participant.default_subscriber_qos.clone(),
@@ -316,6 +317,33 @@ impl DcpsDomainParticipant {
             subscriber.qos.check_immutability(&qos)?;
         }
         subscriber.qos = qos;
+
+        // The subscriber QoS (e.g. partition) is part of what its readers announce and match on
+        let mut enabled_reader_list = Vec::new();
+        let subscriber_partition = subscriber.qos.partition.clone();
+        for data_reader in &mut subscriber.data_reader_list {
+            let unmatched_writer_list: Vec<_> = data_reader
+                .matched_publication_list
+                .iter()
+                .filter(|p| {
+                    !super::discovery_methods::is_partition_matched(
+                        p.partition(),
+                        &subscriber_partition,
+                    )
+                })
+                .map(|p| p.key().value)
+                .collect();
+            for key in unmatched_writer_list {
+                data_reader.remove_matched_publication(&InstanceHandle::new(key));
+                data_reader.transport_reader.delete_matched_writer(key.into());
+            }
+            if data_reader.enabled {
+                enabled_reader_list.push(data_reader.instance_handle);
+            }
+        }
+        for data_reader_handle in enabled_reader_list {
+            self.announce_data_reader(subscriber_handle, &data_reader_handle, runtime);
+        }
         Ok(())
     }
 
